@@ -1,5 +1,6 @@
 ---- MODULE MC_t_pairs ----
 EXTENDS MCOFWire
 TheCases == Pairs(TopKindsOF)
+TheRCases == {}
 TheAround == AroundOne
 ====
